@@ -130,11 +130,11 @@ CLAIMED.update({
         text='Coq theorems (props/C20.v): the expanded list holds exactly the days covered by some entry, each once, '
              'independent of order / duplication / overlap; malformed entries, invalid calendar dates and reversed ranges '
              'reject the whole list with ValueError; day numbers and calendar days correspond one to one over 1900-2199 '
-             '(finite sweep by vm_compute, bound stated). utils.expand_time_windows and TimeWindow.__post_init__ are regenerated '
+             '(finite sweep by vm_compute, bound stated). utils.find_days_to_exclude, utils.expand_time_windows and TimeWindow.__post_init__ are regenerated '
              'into gen/Gen_Dates.v on every run, proved equal to the model (proofs/DatesBridge.v) and the theorems restated on '
              'them (C20_translated_*). Entry lists built from structured specifications are run through '
              'find_days_to_exclude + expand_time_windows and the model; expected days from datetime.date.',
-        note='Trusted: Coq kernel + vm_compute; translator target dates; pandas.Timestamp parsing, the string splitting of find_days_to_exclude and date_range (modelled; tied by execution). No axioms.',
+        note='Trusted: Coq kernel + vm_compute; translator target dates; which texts pandas.Timestamp accepts, str.split and date_range (modelled; tied by execution). No axioms.',
         technique='Rocq/Coq proof (model + source-regenerated expand_time_windows / TimeWindow guard) + finite calendar sweep lifted by forallb_forall + executed correspondence + oracle',
         ref='DESIGN.md section 5 C20'),
 })
